@@ -359,6 +359,18 @@ func playWarmups(w *world.World, spec world.Spec, sp int, host string, kinds []s
 				}
 			}
 			hr, _, _ = spsim.Encode(spec.IdP.Route("sso"), wr(tree), spsim.Transport{Binding: "post", Plus: true, Encoding: A, RelayState: "warmup"}, nil)
+		case "sso-unknown", "logout-unknown", "attrquery-unknown":
+			// requests of somebody the storage has never heard of (scanners, a provider not yet registered)
+			unknown := fmt.Sprintf("https://never-registered-%d.example/metadata", i)
+			switch k {
+			case "sso-unknown":
+				hr, _, _ = spsim.Encode(spec.IdP.Route("sso"), wr(spsim.NewAuthnReq(fmt.Sprintf("_unknown-%d", i), unknown).Tree(plainStyle)), spsim.Transport{Binding: "post", Plus: true, Encoding: A, RelayState: "x"}, nil)
+			case "logout-unknown":
+				hr, _, _ = spsim.Encode(spec.IdP.Route("slo"), wr(spsim.NewLogoutReq(fmt.Sprintf("_unknown-%d", i), unknown, "x").Tree(plainStyle)), spsim.Transport{Binding: "post", Plus: true, Encoding: A, RelayState: "x"}, nil)
+			default:
+				q := spsim.NewAttrQuery(fmt.Sprintf("_unknown-%d", i), unknown, "login0@users.example")
+				hr, _, _ = spsim.Encode(spec.IdP.Route("attribute"), wr(spsim.Envelope(q.QueryTree(plainStyle), "soap")), spsim.Transport{Binding: "soap"}, nil)
+			}
 		case "sso-refused":
 			// refused after the consumer service was selected: the failure reply is a page / redirect for the registered endpoint
 			a := spsim.NewAuthnReq(fmt.Sprintf("_warmupr-%d", i), s.EntityID)
